@@ -669,7 +669,10 @@ func (s *Sched) eager() (Trans, bool) {
 
 func (s *Sched) replyBreach(ch *Chan, what string) {
 	if ch.reply && !NoEager {
-		EngineError("channel %s (cap 1) was treated as a one-shot reply slot but %s; rerun with VS_NO_EAGER=1", ch.name, what)
+		// not an error of the code under test: the reduction's premise does not hold for this tree.
+		// Exit code 3 makes the runner start over with the reduction switched off.
+		fmt.Fprintf(os.Stderr, "REDUCTION-OFF: channel %s (cap 1) was treated as a one-shot reply slot but %s\n", ch.name, what)
+		os.Exit(3)
 	}
 }
 
